@@ -409,10 +409,17 @@ SpawnDial(dl) == [dl EXCEPT !.st = "spawned", !.cancel = FALSE, !.k = @ + 1, !.c
    written from Active whose OpenSent transition is not yet approved gets no
    Cease).                                                                  *)
 FsmSeesCloseReq(p, d) ==
-  LET f == fsm[p][d] IN
+  LET f == fsm[p][d]
+      due == f.to # "disabled" /\ f.conn # "" /\ Rank(f.from) > Rank("active")
+      \* an OPEN is on the wire but OpenSent is not approved yet: C10 speaks of connections that
+      \* WERE in OpenSent, so a Cease is allowed here but not required (the pinned code sends none)
+      window == ~due /\ f.to = "openSent" /\ f.conn # ""
+  IN
   /\ f.pc \in {"req", "await"} /\ f.closed
-  /\ Go(p, d, (IF f.to # "disabled" /\ f.conn # "" /\ Rank(f.from) > Rank("active")
-                 THEN <<OpW(MCease)>> ELSE <<>>) \o <<OpExit>>)
+  /\ \/ /\ due \/ window
+        /\ Go(p, d, <<OpW(MCease), OpExit>>)
+     \/ /\ ~due
+        /\ Go(p, d, <<OpExit>>)
   /\ UNCHANGED <<cfg, srv, calls, pm, conn, dial, now, out, gh>>
 
 (* fsm.run: disabled while offering an error: the error is never reported. *)
